@@ -241,12 +241,14 @@ func TestTinkMLDSA(t *testing.T) {
 		}
 		// a key from another seed does not verify it
 		seed2 := gen.BytesN(rt, "seed2", 32)
-		if !bytes.Equal(seed2, c.seed) {
-			c2 := newAPICase(rt, c.ps, c.variant, c.id, "key", seed2)
-			n++
-			if c2.try(rt, "other-key", sig, msg) {
-				acc++
-			}
+		if bytes.Equal(seed2, c.seed) {
+			seed2 = flipBit(seed2, rapid.IntRange(0, 255).Draw(rt, "seed2_bit")) // another key by construction
+			evid.Add("other_key_seed_made_different", 1)
+		}
+		c2 := newAPICase(rt, c.ps, c.variant, c.id, "key", seed2)
+		n++
+		if c2.try(rt, "other-key", sig, msg) {
+			acc++
 		}
 		evid.Add("verify_candidates", int64(n))
 		evid.Add("verify_candidates_accepted", int64(acc))
@@ -321,13 +323,43 @@ func TestPrehash(t *testing.T) {
 		if err != nil {
 			rt.Fatalf("%v: SignPrehash(ComputePrehash(%x) = %x): %v", c, msg, digest, err)
 		}
-		// under the reference: FIPS 204 Verify with the empty context, i.e. mu = H(tr || 0 || 0 || msg)
-		if !mldsaref.Verify(p, c.pkRef, msg, nil, sig) {
-			rt.Fatalf("%v: signature made through the prehash path does not verify under the reference (empty ctx)\nmsg = %x\nprehash = %x\nsig = %x", c, msg, digest, sig)
+		n := 0
+		try := func(kind string, cand, m []byte) bool { n++; return c.try(rt, kind, cand, m) }
+		// mustVerify is C10's prehash clause: "signatures made through the prehash (external-mu) path of
+		// an external-mu key verify under that key's ordinary verifier" (every try is two-sided against
+		// the reference, so "the ordinary verifier accepts" is also "FIPS 204 Verify with the empty
+		// context accepts the part after the prefix"). An external-mu key (NO_PREFIX_WITH_PREHASH_ID) has
+		// no output prefix: the bytes SignPrehash returns are the candidate. The constructors also take
+		// TINK keys; neither C10 nor the doc comments of signprehash/mldsa ("for ML-DSA External Mu keys",
+		// nothing on output framing) say whether SignPrehash puts the key's output prefix in front, so for
+		// a TINK key either framing satisfies the clause: the output as returned, or the key's prefix
+		// followed by the output, must verify under the ordinary verifier; which one did is counted.
+		// It returns the FIPS 204 part of the signature.
+		mustVerify := func(kind string, s, m, d []byte) []byte {
+			asReturned := try(kind, s, m)
+			if c.variant == vPrehashID {
+				if !asReturned {
+					rt.Fatalf("%v: %s: signature made through the prehash path is rejected by the key's ordinary verifier (and by the reference: FIPS 204 Verify, empty ctx)\nmsg = %x\nprehash = %x\nsig = %x", c, kind, m, d, s)
+				}
+				return s
+			}
+			prefixAdded := try(kind+"(prefix added)", append(append([]byte{}, c.prefix...), s...), m)
+			switch {
+			case asReturned:
+				evid.Add("prehash_tink_key_output/verifies_as_returned", 1)
+				return s[len(c.prefix):]
+			case prefixAdded:
+				evid.Add("prehash_tink_key_output/verifies_after_adding_the_key_prefix", 1)
+				return s
+			}
+			rt.Fatalf("%v: %s: signature made through the prehash path of a TINK key is rejected by the key's ordinary verifier both as returned and with the key's output prefix %x in front (the reference agrees on both)\nmsg = %x\nprehash = %x\nsig = %x", c, kind, c.prefix, m, d, s)
+			return nil
 		}
+		raw := mustVerify("prehash-signature", sig, msg, digest)
+		// harness self-check: mu = H(tr || 0 || 0 || msg) is what the external-mu entry points sign
 		mPrime, _ := mldsaref.FormatMessage(msg, nil)
 		mu := mldsaref.ComputeMu(p, c.pkRef, mPrime)
-		if !mldsaref.VerifyMu(p, c.pkRef, mu, sig) {
+		if !mldsaref.VerifyMu(p, c.pkRef, mu, raw) {
 			rt.Fatalf("harness: reference Verify and VerifyMu disagree")
 		}
 		if bytes.HasSuffix(digest, mu[:]) {
@@ -335,37 +367,22 @@ func TestPrehash(t *testing.T) {
 		} else {
 			evid.Add("prehash_does_not_end_with_fips204_mu", 1)
 		}
-		n := 0
-		try := func(kind string, cand, m []byte) bool { n++; return c.try(rt, kind, cand, m) }
-		if c.variant == vPrehashID {
-			// the property: verifies under the key's ordinary verifier
-			if !try("prehash-signature", sig, msg) {
-				rt.Fatalf("%v: prehash-path signature rejected by the key's ordinary verifier\nmsg = %x\nsig = %x", c, msg, sig)
-			}
-		} else {
-			// TINK key: SignPrehash returns the raw signature; the ordinary verifier's decision is
-			// whatever the prefix rule says, on both framings
-			if try("prehash-signature(raw)", sig, msg) {
-				evid.Add("prehash_tink_key_raw_signature_accepted_by_ordinary_verifier", 1)
-			} else {
-				evid.Add("prehash_tink_key_raw_signature_rejected_by_ordinary_verifier", 1)
-			}
-			if !try("prehash-signature(prefix added)", append(append([]byte{}, c.prefix...), sig...), msg) {
-				rt.Fatalf("harness: prefix || prehash-path signature not accepted by the reference decision")
-			}
-		}
 		mm := gen.Mutate(rt, "msgmut", msg)
 		try("other-message/"+mm.Kind, sig, mm.Out)
 		try("flip", flipBit(sig, rapid.IntRange(0, 8*len(sig)-1).Draw(rt, "bit")), msg)
-		// a prehash of another message signs that other message
-		if d2, err := ph.ComputePrehash(mm.Out); err == nil {
-			if s2, err := phs.SignPrehash(d2); err == nil {
-				try("prehash-of-other-message", s2, msg)
-				if !mldsaref.Verify(p, c.pkRef, mm.Out, nil, s2) {
-					rt.Fatalf("%v: prehash-path signature for %x does not verify under the reference", c, mm.Out)
-				}
-			}
+		// a second signature through the same two objects: the prehash of another message signs that
+		// other message (same clause; an error of either call is a failure like the first one's)
+		d2, err := ph.ComputePrehash(mm.Out)
+		if err != nil {
+			rt.Fatalf("%v: ComputePrehash(%x) (call %d on this object): %v", c, mm.Out, batch+2, err)
 		}
+		s2, err := phs.SignPrehash(d2)
+		if err != nil {
+			rt.Fatalf("%v: second SignPrehash on this object, SignPrehash(ComputePrehash(%x) = %x): %v (the first, for %x, succeeded)", c, mm.Out, d2, err, msg)
+		}
+		try("prehash-of-other-message", s2, msg)
+		mustVerify("prehash-signature-2", s2, mm.Out, d2)
+		evid.Add("prehash_second_signatures", 1)
 		// ordinary signatures of the same key and prehash-path signatures are interchangeable
 		own, err := c.signer.Sign(msg)
 		if err != nil {
